@@ -33,10 +33,11 @@ Definition SVGNS : string := "http://www.w3.org/2000/svg".
 Record cfg := mkCfg {
   f_style_skip : bool;   (* SaxDocument skips style declarations without ':' (trailing ';') *)
   f_add_ns : bool;       (* Document(None) / add_path create svg / path in the SVG namespace *)
-  f_default_ns : bool    (* register_namespace('', SVGNS): the SVG namespace is written as the default one *)
+  f_default_ns : bool;   (* register_namespace('', SVGNS): the SVG namespace is written as the default one *)
+  f_nod_empty : bool     (* svg2paths: a <path> without d reads as the empty path (el.get('d', '')) *)
 }.
-Definition pinned : cfg := mkCfg false false false.
-Definition repaired : cfg := mkCfg true true true.
+Definition pinned : cfg := mkCfg false false false false.
+Definition repaired : cfg := mkCfg true true true true.
 
 (* ---------- attribute dictionaries as association lists ---------- *)
 Definition dict : Type := list (string * string).
@@ -147,12 +148,18 @@ Fixpoint all_some {A} (l : list (option A)) : option (list A) :=
   | None :: _ => None
   end.
 
-Definition svg2paths_read (f : fel) : option (list string * list dict) :=
+(* get('d', '') *)
+Definition dget (a : dict) : string := match lookup "d" a with Some d => d | None => "" end.
+
+(* pinned: d_strings = [el['d'] ...]: KeyError (None) when a path element has no
+   d attribute; repaired: el.get('d', ''), the element reads as the empty path *)
+Definition svg2paths_read (c : cfg) (f : fel) : option (list string * list dict) :=
   let ds := map f_attrs (elements_by_tag "path" f) in
-  match all_some (map (lookup "d") ds) with
-  | Some dstrs => Some (dstrs, ds)
-  | None => None
-  end.
+  if f_nod_empty c then Some (map dget ds, ds)
+  else match all_some (map (lookup "d") ds) with
+       | Some dstrs => Some (dstrs, ds)
+       | None => None
+       end.
 
 Definition svg2paths_svg_attributes (f : fel) : option dict :=
   match elements_by_tag "svg" f with
@@ -223,8 +230,6 @@ Definition style_entries (c : cfg) (a : dict) : option dict :=
   | Some st => style_assign c (split_on ";" st) []
   end.
 
-(* get('d', '') *)
-Definition dget (a : dict) : string := match lookup "d" a with Some d => d | None => "" end.
 (* values['d'] = path2pathd(...): a path element always gets a 'd' entry, '' when
    it has no d attribute.  (path2pathd looks at the element's own attributes
    since the repair of the attribute inheritance, at the inherited values
